@@ -18,6 +18,7 @@ from __future__ import annotations
 import calendar
 from collections import Counter
 import datetime
+import os
 import time
 from typing import Any
 
@@ -92,7 +93,28 @@ class Lockstep:
         from . import harness as _harness
 
         with _harness.options(case["config_extra"] if "config_extra" in case else dict(_harness.CONFIG_EXTRA)):
-            self.gateway, self.transport = new_gateway(None, metric=case.get("metric", True))
+            if case.get("neighbour"):
+                # a SECOND gateway lives in the same process (two serial gateways in one application); both are built
+                # the way the README builds one - no Config given - and the neighbour is then reconfigured, filled and used.
+                # Nothing in the statements lets one gateway's configuration, registry or buffer reach another's.
+                from aiomysensors import Gateway as _Gateway
+
+                self.neighbour = _Gateway(ScriptedTransport())
+                self.transport = ScriptedTransport()
+                self.gateway = _Gateway(self.transport)
+                self.prepare_neighbour()
+            elif case.get("session_file") is not None:
+                # the registry comes from the persistence file named in the Config, loaded when the context is entered
+                import json as _json
+                import tempfile as _tempfile
+
+                fd, self.session_path = _tempfile.mkstemp(prefix="vf-lockstep-session-", suffix=".json")
+                with os.fdopen(fd, "w", encoding="utf-8") as fil:
+                    _json.dump(case["session_file"], fil)
+                self.gateway, self.transport = new_gateway(None, metric=case.get("metric", True),
+                                                           persistence_file=self.session_path)
+            else:
+                self.gateway, self.transport = new_gateway(None, metric=case.get("metric", True))
         self.model = Model(metric=case.get("metric", True))
         if case.get("version") is not None:
             self.gateway.protocol_version = case["version"]
@@ -155,6 +177,42 @@ class Lockstep:
 
     # ------------------------------------------------------------------------------
     async def run(self) -> list[Mismatch]:
+        if self.case.get("neighbour"):
+            # the neighbour parks commands for its sleeping nodes and hears from a node nobody else knows
+            from aiomysensors.model.message import Message
+
+            for fields in ((1, 0, 1, 0, 2, "neighbour's"), (2, 5, 1, 0, 0, "98"), (9, 0, 2, 0, 2, "")):
+                try:
+                    await self.neighbour.send(Message(*fields))
+                except Exception:  # noqa: BLE001  not the gateway under test
+                    self.stats["neighbour:send-error"] += 1
+            self.stats["neighbour:prepared"] += 1
+        if self.case.get("session_file") is not None:
+            try:
+                try:
+                    await self.gateway.__aenter__()
+                except Exception as exc:  # noqa: BLE001
+                    self.bad("C16", "enter-raised", f"entering the context with a valid file raised {type(exc).__name__}: {exc!s:.100}")
+                    return self.mismatches
+                self.transport.take_writes()
+                self.model_restore_records(self.case["session_file"])
+                self.stats["session-file:entered"] += 1
+                self.check_invariants()
+                return await self.run_steps()
+            finally:
+                try:
+                    await self.stepper.close()
+                    await self.gateway.__aexit__(None, None, None)
+                except Exception:  # noqa: BLE001  judged by C16's own workloads
+                    pass
+                for path in (self.session_path, self.session_path + ".bak", self.session_path + ".tmp"):
+                    try:
+                        os.unlink(path)
+                    except OSError:
+                        pass
+        return await self.run_steps()
+
+    async def run_steps(self) -> list[Mismatch]:
         for op in self.case["steps"]:
             self.step_index += 1
             kind = op[0]
@@ -216,6 +274,17 @@ class Lockstep:
         await self.stepper.close()
         return self.mismatches
 
+    def prepare_neighbour(self) -> None:
+        from aiomysensors.model.node import Child, Node
+
+        other = self.neighbour
+        other.config.metric = False
+        other.protocol_version = "2.1"
+        for node_id in (1, 2, 9):
+            other.nodes[node_id] = Node(node_id, 18, "1.4", children={0: Child(0, 3, description="neighbour's", values={2: "1"}),
+                                                                        5: Child(5, 6, values={0: "99"})},
+                                        sleeping=True, battery_level=11, heartbeat=77)
+
     def restore(self, node_id: int, data: dict) -> None:
         from aiomysensors.model.node import Child, Node
 
@@ -250,6 +319,9 @@ class Lockstep:
                 return
         finally:
             os.unlink(path)
+        self.model_restore_records(records)
+
+    def model_restore_records(self, records: dict) -> None:
         for record in records.values():
             children = {int(cid): MChild(ch["child_type"], ch.get("description", ""),
                                          {int(k): v for k, v in (ch.get("values") or {}).items()})
